@@ -214,6 +214,30 @@ def gen_face(rng):
     raise RuntimeError("generator could not produce an admissible face")
 
 
+def gen_directed(rng, n_base):
+    """faces across longitude 0 and across +-180, each listed from EVERY start corner and in BOTH
+    orientations (the longitude insertion order decides which end of the interval is replaced and
+    whether the interval wraps at that moment).  Kept away from the poles, so that the reversed
+    listing cannot be mistaken for a pole face by the orientation determinants of the oracle."""
+    out = []
+    while len(out) < n_base:
+        lon0 = rng.choice([0.0, 180.0]) + rng.uniform(-2, 2)
+        lat0 = rng.choice([rng.uniform(-60, 60), rng.uniform(-3, 3)])
+        f = gnomonic(rng, (lon0, lat0), rng.randint(3, 6), rng.uniform(0.05, 0.35))
+        f = [(float(lo), float(la)) for lo, la in f]
+        lons = [((lo - lon0 + 180) % 360) - 180 for lo, _ in f]
+        if not admissible(f) or min(lons) >= 0 or max(lons) <= 0:      # must really cross the meridian
+            continue
+        out.append((f, "lon0" if abs(lon0) < 90 else "lon180"))
+    items = []
+    for f, tag in out:
+        for k in range(len(f)):
+            r = f[k:] + f[:k]
+            items.append((r, f"directed/{tag}/ccw"))
+            items.append((r[::-1], f"directed/{tag}/cw"))
+    return items
+
+
 # ----------------------------------------------------------------------------------------
 # implementation side
 # ----------------------------------------------------------------------------------------
@@ -378,6 +402,7 @@ def run(ctx):
                 "with long east-west edges (poleward bulge), faces on the prime/anti-meridian (also on the equator), faces "
                 "with a corner exactly at a pole (nominal pole longitude adjacent / 0 / random), faces enclosing a pole "
                 "(off-centre, regular and irregular rings, rings with a corner on longitude 0); random traversal start; "
+                "a directed stream of faces across longitude 0 / 180 listed from every start corner in both orientations; "
                 "faces within 1e-6 of a pole on the boundary or with corners within 0.06 deg of a pole are not generated; "
                 "distinct = distinct corner lists")
     ctx.assumptions = [
@@ -392,6 +417,7 @@ def run(ctx):
         j = json.loads(f.read_text())
         corpus.append(([tuple(map(float, c)) for c in j["face"]], j.get("kind", "corpus")))
     run_faces(ctx, corpus)
+    run_faces(ctx, gen_directed(rng, ctx.n(24, 400)))
     items = [gen_face(rng) for _ in range(ctx.n(1500, 60000))]
     run_faces(ctx, items)
 
